@@ -2,6 +2,8 @@ package json
 
 import (
 	stdjson "encoding/json"
+	"math"
+	"strconv"
 )
 
 var vfShape, vfWide, vfFlags, vfRT int
@@ -153,6 +155,8 @@ type jPtrs struct {
 	C *int `json:"c"`
 	D bool
 	P **int8 `json:"p,omitempty"`
+	Fl float64 `json:"fl,omitempty"`
+	Fs float32 `json:"fs,omitempty"`
 }
 
 type jStrTag struct {
@@ -262,6 +266,15 @@ var jshapes = []jShape{
 	{name: "ptrs", ptr: func(v any) any { x := v.(jPtrs); return &x }, newp: func() any { return new(jPtrs) },
 		mk: func() any {
 			v := jPtrs{D: vfBool()}
+			switch vfIntIn(0, 3) { // floats: only the omitempty decision is observed (their text is an opaque stub)
+			case 1:
+				v.Fl = math.Copysign(0, -1) // negative zero is zero: omitted
+				v.Fs = float32(math.Copysign(0, -1))
+			case 2:
+				v.Fl = 1.5
+			case 3:
+				v.Fs = -2.25
+			}
 			if vfBool() {
 				x := int(i64(0))
 				v.C = &x
@@ -293,6 +306,14 @@ var jshapes = []jShape{
 				} else {
 					b = refInt(b, int64(**v.P))
 				}
+			}
+			if v.Fl != 0 {
+				b = append(b, `,"fl":`...)
+				b = strconv.AppendFloat(b, v.Fl, 'f', -1, 64)
+			}
+			if v.Fs != 0 {
+				b = append(b, `,"fs":`...)
+				b = strconv.AppendFloat(b, float64(v.Fs), 'f', -1, 32)
 			}
 			return append(b, '}'), true
 		}},
@@ -613,13 +634,15 @@ var jshapes = []jShape{
 			case 3:
 				v.I = map[string]any{}
 				if n > 0 {
-					switch vfIntIn(0, 2) {
+					switch vfIntIn(0, 3) {
 					case 0:
 						v.I[k1] = nil
 					case 1:
 						v.I[k1] = symStr(1)
-					default:
+					case 2:
 						v.I[k1] = []string(nil)
+					default:
+						v.I[k1] = jMarshalerV{fail: true} // a value that cannot be encoded: Append must fail under every flag subset
 					}
 				}
 				if n > 1 {
@@ -650,7 +673,28 @@ var jshapes = []jShape{
 					return nil, false
 				}
 			}
+			for _, x := range v.I {
+				if _, bad := x.(jMarshalerV); bad {
+					return nil, false
+				}
+			}
 			return fastWant(v, esc, false), true
+		}},
+	{name: "bytes", ptr: func(v any) any { x := v.([]byte); return &x }, newp: func() any { return new([]byte) },
+		mk: func() any {
+			if vfBool() {
+				return []byte(nil)
+			}
+			return vfBytes(vfLen)
+		},
+		want: func(x any, esc bool) ([]byte, bool) {
+			v := x.([]byte)
+			if v == nil {
+				return []byte("null"), true
+			}
+			b := append([]byte(nil), '"')
+			b = refBase64(b, v)
+			return append(b, '"'), true
 		}},
 	{name: "addrV", noPtrParity: true, ptr: func(v any) any { x := v.(jArrs); return &x }, newp: func() any { return new(jArrs) },
 		mk:   func() any { return mkArrs() },
